@@ -64,8 +64,8 @@ class C01(engine.Property):
     title = "vertex-link association symmetric and duplicate-free"
     max_steps = 80
     budget = {
-        "quick": {"runs": 24000, "wall_cap_s": 600},
-        "thorough": {"runs": 3000000, "wall_cap_s": 3000},
+        "quick": {"runs": 100000, "wall_cap_s": 600},
+        "thorough": {"runs": 4000000, "wall_cap_s": 5400},
     }
     rule = (
         "one evaluation = one seeded history (swarm configuration, then 3-60 public "
